@@ -443,17 +443,12 @@ Section Visitor.
   (* separateFrom: NewXScanner(wrapped + following, RunContextTopLevels).Scan() must give back the identifier *)
   Definition separate_from (wrapped following : text) : text :=
     if negb separates_identifiers then wrapped
+    else if is_prefix [64; 40] wrapped then wrapped
     else
-      match following with
-      | [] => wrapped
-      | _ =>
-          if is_prefix [64; 40] wrapped then wrapped
-          else
-            match ExScanner.scan isln lower_rune (Some run_top_levels) true (ExScanner.new_input (wrapped ++ following)) with
-            | ExScanner.Ok (ExScanner.IDENTIFIER, tok, _) =>
-                if text_eqb tok (tl wrapped) then wrapped else 64 :: 40 :: tl wrapped ++ [41]
-            | _ => 64 :: 40 :: tl wrapped ++ [41]
-            end
+      match ExScanner.scan isln lower_rune (Some run_top_levels) true (ExScanner.new_input (wrapped ++ following)) with
+      | ExScanner.Ok (ExScanner.IDENTIFIER, tok, _) =>
+          if text_eqb tok (tl wrapped) then wrapped else 64 :: 40 :: tl wrapped ++ [41]
+      | _ => 64 :: 40 :: tl wrapped ++ [41]
       end.
 
   (* tokens of excellent.NewXScanner(template, ContextTopLevels) with SetUnescapeBody(false) *)
